@@ -89,6 +89,8 @@ func Expr(e Node) string {
 			return fmt.Sprintf("(%d)", n)
 		}
 		return fmt.Sprint(n)
+	case "fnum":
+		return e["src"].(string)
 	case "str":
 		return hx.AwkString(bytesOf(e["s"]))
 	case "var":
@@ -199,7 +201,7 @@ func operand(e Node) string {
 		if intOf(e["n"]) >= 0 {
 			return Expr(e)
 		}
-	case "str", "var", "idx", "call", "bi", "group", "re0":
+	case "str", "var", "idx", "call", "bi", "group", "re0", "fnum":
 		return Expr(e)
 	case "field":
 		ix := e["e"].(Node)
